@@ -306,6 +306,23 @@ func r3err(c *core.Ctx) {
 							continue
 						}
 					}
+					// … or one of several constants that all fit (a flag computed on the way: 0 or 1 in one bit)
+					if !okV && okW && w > 0 && w < 63 {
+						if ks, all := phiConstants(call.Call.Args[1], 0); all && len(ks) > 0 {
+							fits := true
+							for _, k := range ks {
+								if k < 0 || k >= 1<<uint(w) {
+									fits = false
+								}
+							}
+							if fits {
+								if lost, _ := errorLost(call, ev, always); lost {
+									c.Except(R, key, call.Pos(), fmt.Sprintf("putBitsValue(one of %v, %d) cannot fail (every value it can be handed fits): its error is only logged", ks, w))
+									continue
+								}
+							}
+						}
+					}
 				}
 				if lost, where := errorLost(call, ev, always); lost {
 					c.Fail(R, key, call.Pos(), "the error %s can be lost: %s", map[bool]string{true: "created here", false: "returned by " + shortName(name)}[always], where)
@@ -779,4 +796,31 @@ func r3pure(c *core.Ctx) {
 		c.Undecided("R3.pure: the encoder entry points (aper.Marshal*, ngap.Encoder) were not found")
 	}
 	pureState(c, "R3.pure", "the APER encoder (aper.Marshal, aper.MarshalWithParams, ngap.Encoder)", entries, nil)
+}
+
+// phiConstants: the constants a value merged from constants can be (through phis and widening
+// conversions); all is false when something that is not a constant can flow in.
+func phiConstants(v ssa.Value, depth int) (ks []int64, all bool) {
+	if depth > 4 {
+		return nil, false
+	}
+	if k, ok := core.ConstInt(v); ok {
+		return []int64{k}, true
+	}
+	switch x := v.(type) {
+	case *ssa.Phi:
+		for _, e := range x.Edges {
+			sub, ok := phiConstants(e, depth+1)
+			if !ok {
+				return nil, false
+			}
+			ks = append(ks, sub...)
+		}
+		return ks, true
+	case *ssa.Convert:
+		return phiConstants(x.X, depth+1)
+	case *ssa.ChangeType:
+		return phiConstants(x.X, depth+1)
+	}
+	return nil, false
 }
